@@ -64,8 +64,8 @@ func (H) Decode(b []byte) (any, error) {
 func (H) Describe(sc any) string {
 	s := sc.(*Scenario)
 	var sb strings.Builder
-	if s.Kind == "pool" {
-		fmt.Fprintf(&sb, "Pool new=%v preput=%d", s.WithNew, s.Preput)
+	if s.Kind == "pool" || s.Kind == "poolval" {
+		fmt.Fprintf(&sb, "Pool[%s] new=%v preput=%d", map[string]string{"pool": "*token", "poolval": "struct value"}[s.Kind], s.WithNew, s.Preput)
 	} else {
 		fmt.Fprintf(&sb, "AtomicValue[%s]", s.Kind)
 	}
@@ -80,6 +80,9 @@ func (H) Generate(r *simrt.Rand, tier string) any {
 	s := &Scenario{}
 	if r.Intn(5) < 2 {
 		s.Kind = "pool"
+		if r.Intn(3) == 0 {
+			s.Kind = "poolval" // items are values, not pointers
+		}
 		s.WithNew = r.Intn(4) != 0
 		s.Preput = r.Intn(3)
 		cycles := 3
@@ -97,7 +100,7 @@ func (H) Generate(r *simrt.Rand, tier string) any {
 		}
 		return s
 	}
-	s.Kind = []string{"int", "string", "struct"}[r.Intn(3)]
+	s.Kind = []string{"int", "string", "struct", "iface"}[r.Intn(4)]
 	next := 0
 	var stored []int
 	dup := r.Intn(4) == 0 // values from a tiny set: equal values written by different calls
@@ -201,8 +204,38 @@ func (r *regOf[T]) do(o Op) (int, bool) {
 	panic("bad op")
 }
 
+// ifacePtrs: the values of the interface-typed register are *int (atomic.Value
+// wants one concrete type); value 1 is the typed nil pointer, which is a value
+// like any other and must not be mistaken for "empty".
+var ifacePtrs = func() []*int {
+	out := make([]*int, 4096)
+	for i := range out {
+		if i != 1 {
+			v := i
+			out[i] = &v
+		}
+	}
+	return out
+}()
+
 func newRegister(kind string) register {
 	switch kind {
+	case "iface":
+		return &regOf[any]{to: func(i int) any {
+			if i == 0 {
+				return nil // only ever passed as CompareAndSwap's old: never equal to a stored value
+			}
+			return ifacePtrs[i%len(ifacePtrs)]
+		}, from: func(x any) int {
+			if x == nil {
+				return 0
+			}
+			p := x.(*int)
+			if p == nil {
+				return 1
+			}
+			return *p
+		}}
 	case "string":
 		return &regOf[string]{to: func(i int) string {
 			if i == 0 {
@@ -238,6 +271,9 @@ func (H) Execute(scAny any, cfg simrt.Config, st *core.Stats) (*simrt.Outcome, *
 	sc := scAny.(*Scenario)
 	if sc.Kind == "pool" {
 		return execPool(sc, cfg, st)
+	}
+	if sc.Kind == "poolval" {
+		return execPoolVal(sc, cfg, st)
 	}
 	reg := newRegister(sc.Kind)
 	hist := make([][]rec, len(sc.Clients)+1)
@@ -406,6 +442,99 @@ func execPool(sc *Scenario, cfg simrt.Config, st *core.Stats) (*simrt.Outcome, *
 					t.owner = 0
 					if !simrt.RaceEnabled {
 						ledger[t.id] = pooled
+					}
+					pool.Put(t)
+				}
+			})
+		}
+		wg.Wait()
+	})
+	out := s.Run()
+	if v := core.OutcomeViolation(out); v != nil {
+		return out, v
+	}
+	if out.Truncated {
+		return out, core.NoProgress(out)
+	}
+	if out.Stuck {
+		return out, &core.Violation{Signature: "deadlock", Detail: fmt.Sprint(out.StuckTasks)}
+	}
+	if viol != "" {
+		return out, &core.Violation{Signature: "pool-double-handout", Detail: viol}
+	}
+	return out, nil
+}
+
+type tokVal struct {
+	ID  int
+	Pad [6]int // all equal to ID: a torn copy shows
+}
+
+func mkTok(id int) tokVal {
+	t := tokVal{ID: id}
+	for i := range t.Pad {
+		t.Pad[i] = id
+	}
+	return t
+}
+
+// execPoolVal: the pooled items are struct values. An item is identified by its
+// ID; "held by two users" means the same ID handed out twice without a Put in
+// between, and a value that was never Put nor made by New is an invented item.
+func execPoolVal(sc *Scenario, cfg simrt.Config, st *core.Stats) (*simrt.Outcome, *core.Violation) {
+	var pool sync2.Pool[tokVal]
+	const (
+		held   = 1
+		pooled = 2
+	)
+	ledger := map[int]int{}
+	viol := ""
+	if sc.WithNew {
+		pool.New = func() tokVal { return tokVal{} }
+	}
+	s := simrt.New(cfg)
+	s.Go(func() {
+		for i := 0; i < sc.Preput; i++ {
+			if !simrt.RaceEnabled {
+				ledger[1+i] = pooled
+			}
+			pool.Put(mkTok(1 + i))
+		}
+		var wg ssync.WaitGroup
+		wg.Add(len(sc.Clients))
+		for i := range sc.Clients {
+			i := i
+			me := i + 1
+			simrt.Go(func() {
+				defer wg.Done()
+				local := 0
+				for _, o := range sc.Clients[i] {
+					simrt.Yield()
+					t := pool.Get()
+					for _, p := range t.Pad {
+						if p != t.ID && viol == "" && !simrt.RaceEnabled {
+							viol = fmt.Sprintf("task %d: Get returned a torn value %+v", me, t)
+						}
+					}
+					if t.ID == 0 {
+						if !sc.WithNew {
+							continue // the zero value: New is nil
+						}
+						local++
+						t = mkTok(me*1000 + local)
+					} else if !simrt.RaceEnabled {
+						if ledger[t.ID] != pooled && viol == "" {
+							viol = fmt.Sprintf("task %d: Get returned item %d which is not in the pool (ledger state %d: 1=held by a user, 0=never put)", me, t.ID, ledger[t.ID])
+						}
+					}
+					if !simrt.RaceEnabled {
+						ledger[t.ID] = held
+					}
+					for k := 0; k < o.Use; k++ {
+						simrt.Yield()
+					}
+					if !simrt.RaceEnabled {
+						ledger[t.ID] = pooled
 					}
 					pool.Put(t)
 				}
